@@ -455,9 +455,10 @@ def _r4(ch, ctr):
     recv = ch.prefix_text(len(ch.segs) - 1)
     n = ctr.next("R4")
     is_any = seg.name == "any"
-    return ("{\n let ai_%d = %s;\n let mut res_%d = %s;\n let mut ak_%d: usize = 0;\n /*@L:R4*/ while ak_%d < ai_%d.len() && %sres_%d\n {\n"
-            " %s\n let ab_%d = %s;\n if %sab_%d { res_%d = %s; }\n ak_%d += 1;\n }\n res_%d\n}") % (
-        n, recv, n, "false" if is_any else "true", n, n, n, "!" if is_any else "", n,
+    # the receiver is bound by `match` so that temporaries in it live as long as in the original expression
+    return ("match %s { ai_%d => {\n let mut res_%d = %s;\n let mut ak_%d: usize = 0;\n /*@L:R4*/ while ak_%d < ai_%d.len() && %sres_%d\n {\n"
+            " %s\n let ab_%d = %s;\n if %sab_%d { res_%d = %s; }\n ak_%d += 1;\n }\n res_%d\n} }") % (
+        recv, n, n, "false" if is_any else "true", n, n, n, "!" if is_any else "", n,
         bind(pat, "ai_%d.get(ak_%d)" % (n, n), False), n, _as_block(body), "" if is_any else "!", n, n,
         "true" if is_any else "false", n, n)
 
